@@ -581,12 +581,10 @@ def hidden_state_scan(ops) -> list[str]:
                     txt = None
                     if isinstance(n, ast.Call):
                         f = ast.unparse(n.func)
-                        if f in ('object.__setattr__', 'setattr', 'object.__delattr__', 'delattr') and n.args and ast.unparse(n.args[0]) == 'self':
+                        if f in ('object.__setattr__', 'setattr', 'object.__delattr__', 'delattr', 'vars') and n.args and ast.unparse(n.args[0]) == 'self':
                             txt = ast.unparse(n)
                     elif isinstance(n, ast.Attribute) and n.attr == '__dict__' and isinstance(n.value, ast.Name) and n.value.id == 'self':
                         txt = 'self.__dict__'
-                    elif isinstance(n, ast.Call) and ast.unparse(n.func) == 'vars' and n.args and ast.unparse(n.args[0]) == 'self':
-                        txt = 'vars(self)'
                     elif isinstance(n, (ast.Assign, ast.AugAssign, ast.AnnAssign)):
                         targets = n.targets if isinstance(n, ast.Assign) else [n.target]
                         for t in targets:
@@ -624,6 +622,7 @@ def hidden_state_scan(ops) -> list[str]:
 
 SAFE_ATTRS = {'shape', 'ndim', 'dtype', 'size', 'nbytes', 'itemsize', 'weak_type', 'aval', 'sharding'}
 SAFE_CALLS = {'isinstance', 'len', 'type', 'is_leaf', 'hasattr', 'callable', 'id', 'issubclass'}
+SAFE_FUNCS = {'ndim', 'shape', 'size', 'result_type', 'issubdtype', 'iscomplexobj', 'isrealobj', 'broadcast_shapes', 'eval_shape', 'isdtype'}
 CONV_CALLS = {'int', 'float', 'bool', 'complex', 'range', 'hash', 'str', 'repr', 'format'}
 CONV_METHODS = {'item', 'tolist', 'tobytes', '__index__', '__int__', '__float__', '__bool__', '__complex__', '__array__'}
 TRACED_KINDS = {'KArray', 'KScalar', 'KBoolArray', 'KIndexTuple'}
@@ -700,6 +699,8 @@ def conversion_scan(ops, field_info) -> list[str]:
                     f = n.func
                     if isinstance(f, ast.Name) and f.id in SAFE_CALLS:
                         return False
+                    if isinstance(f, ast.Attribute) and isinstance(f.value, ast.Name) and f.attr in SAFE_FUNCS and is_self_attr(f) is None:
+                        return False  # jnp.ndim(a), jnp.shape(a), jnp.result_type(a, b)...
                     return any(tainted(ch) for ch in ast.iter_child_nodes(n))
                 if isinstance(n, ast.Name):
                     return n.id in tainted_names
